@@ -872,6 +872,15 @@ def check_C17(tier, seed):
     for p in ["'eq", "'equal", "'string<", "'cons", "'list", "'<"]:
         for l in ["'(1 b)", "'(a b c)", "'(\"b\" \"a\" \"c\")", "'((1) (2))", "'(b 1 a 2)"]:
             items.append(("(setq a 5 b 6 c 7) (setq l %s) (list (sort l %s) l)" % (l, p), {'kind': 'mixed', 'pf': None, 'pred': p}))
+    for p in ["'eq", "'equal", "'<", "(lambda (p q) (equal p q))"]:
+        for l in ["'(1 zz)", "'(zz 1)", "'(zz yy)", "'(1 b 6)", "'(6 b)", "'((+ 1 2) 3)", "'('a 'b)"]:
+            items.append(("(setq b 6) (setq l %s) (list (sort l %s) l)" % (l, p), {'kind': 'mixed', 'pf': None, 'pred': p}))
+    # the argument may share structure with other lists: it must not be rewritten
+    for _ in range(tier_n(tier, 40, 800)):
+        xs = [rng.randint(-5, 5) for _ in range(rng.choice([1, 2, 3, 5, 22]))]
+        p = rng.choice(["'<", "'>"])
+        items.append(("(setq xs '(%s)) (list (sort (cons %d xs) %s) xs (sort (append xs nil) %s) xs (sort (cdr xs) %s) xs)" %
+                      (' '.join(map(str, xs)), rng.randint(-5, 5), p, p, p), {'kind': 'mixed', 'pf': None, 'pred': 'shared' + p}))
     rows = run_exprs(res, items, per_case=10)
     nv = 0
     distinct = set()
